@@ -37,7 +37,7 @@ class C14(Prop):
         clients = []
         for c in range(nclients):
             if g.random() < 0.4:
-                init = {"kind": "read", "ncurves": g.randint(2, 4), "nrows": g.randint(1, 4),
+                init = {"kind": "read", "ncurves": g.randint(1, 4), "nrows": g.randint(1, 4),
                         "engine": g.choice(["numpy", "normal"])}
             else:
                 init = {"kind": "fresh", "nrows": g.randint(1, 4)}
